@@ -10,6 +10,12 @@
 //!   `A<id>`            `StreamSubscription::ack(hash)`
 //!   `K<id>`            `ProcessedOperation::ack()` on an event received earlier in this session
 //!   `O<id>`            publish on a second topic of the same node
+//!   `J<j|s>:<K|A><id>.<K|A><id>..:<i.i.i..|free>`
+//!                      all listed acknowledgements in flight at once (`K`: `ProcessedOperation::ack()`
+//!                      of a held event, skipped when not held; `A`: `StreamSubscription::ack(hash)`),
+//!                      `join_all` on the session's current-thread runtime (j) or one task each on a
+//!                      multi-thread runtime (s); the label list decides which call passes its next
+//!                      schedule point inside `Acked::ack` (`../c07/src/sched.rs`), `free` = no gates
 //!   `p<id>:<wb>:<pr>:<y>`  publish, do not wait for processing, yield y times, crash (last op only)
 //!   `i<y>:<id>,<id>..`     import, do not wait, yield y times, crash (last op only)
 //!   `r<j>`             (whole segment) consume only j >= 1 replay events, then crash
@@ -37,7 +43,17 @@ use p2panda_core::{Body, Cursor, Hash, SigningKey, Topic, VerifyingKey};
 use sqlx::Row;
 use sqlx::sqlite::{SqliteConnectOptions, SqlitePoolOptions};
 
+#[path = "../../c07/src/sched.rs"]
+mod sched;
+
 const STEP_TIMEOUT: Duration = Duration::from_secs(180);
+
+fn multi_runtime() -> &'static tokio::runtime::Runtime {
+    static RT: std::sync::OnceLock<tokio::runtime::Runtime> = std::sync::OnceLock::new();
+    RT.get_or_init(|| {
+        tokio::runtime::Builder::new_multi_thread().worker_threads(2).enable_all().build().expect("multi-thread runtime")
+    })
+}
 
 #[derive(Clone, Debug)]
 struct RowInfo {
@@ -462,6 +478,114 @@ async fn run_segment(w: &mut World, seg_idx: usize, spec: &str, is_last: bool) -
                     }
                 }
             }
+            "J" => {
+                let f: Vec<&str> = rest.split(':').collect();
+                let spawn = f[0] == "s";
+                let entries: Vec<(char, u64)> = f[1]
+                    .split('.')
+                    .filter(|e| !e.is_empty())
+                    .map(|e| (e.chars().next().unwrap(), e[1..].parse().unwrap()))
+                    .collect();
+                let labels: Option<Vec<usize>> = if f[2] == "free" {
+                    None
+                } else {
+                    Some(f[2].split('.').filter(|x| !x.is_empty()).map(|x| x.parse().unwrap()).collect())
+                };
+                let ctl = sched::Ctl::new(entries.len(), labels.is_some());
+                sched::set_current(Some(ctl.clone()));
+                let mut infos: Vec<Option<RowInfo>> = Vec::new();
+                let mut local = Vec::new();
+                let mut handles = Vec::new();
+                for (i, (kind, id)) in entries.iter().enumerate() {
+                    let found = w.known.iter().find(|(_, k)| k.id == *id).map(|(h, k)| (h.clone(), k.clone()));
+                    let mut info: Option<RowInfo> = None;
+                    if *kind == 'K' {
+                        let op = held.get(id).cloned();
+                        if op.is_some() {
+                            info = found.map(|x| x.1);
+                        }
+                        let fut = ctl.wrap(i, async move {
+                            match op {
+                                Some(op) => match op.ack().await {
+                                    Ok(()) => "ok".to_string(),
+                                    Err(e) => format!("err {e:?}"),
+                                },
+                                None => "skip".to_string(),
+                            }
+                        });
+                        if spawn {
+                            handles.push(multi_runtime().spawn(fut));
+                        } else {
+                            local.push(Box::pin(fut) as std::pin::Pin<Box<dyn std::future::Future<Output = ()> + '_>>);
+                        }
+                    } else {
+                        assert!(!spawn, "A entries are not supported on the multi-thread runtime");
+                        let target: Option<Hash> = match &found {
+                            Some((hex, k)) => {
+                                use p2panda_store::operations::OperationStore;
+                                let hash: Hash = hex.parse().expect("hash");
+                                let present = OperationStore::<Operation, Hash>::has_operation(&node.store(), &hash).await.unwrap_or(false);
+                                out.attempted.push(k.clone());
+                                if present {
+                                    info = Some(k.clone());
+                                }
+                                Some(hash)
+                            }
+                            None => None,
+                        };
+                        let rx = &live.rx;
+                        let fut = ctl.wrap(i, async move {
+                            match target {
+                                Some(hash) => match rx.ack(hash).await {
+                                    Ok(()) => "ok".to_string(),
+                                    Err(e) => format!("err {e:?}"),
+                                },
+                                None => "skip".to_string(),
+                            }
+                        });
+                        local.push(Box::pin(fut) as std::pin::Pin<Box<dyn std::future::Future<Output = ()> + '_>>);
+                    }
+                    if *kind == 'K' {
+                        if let Some(k) = &info {
+                            out.attempted.push(k.clone());
+                        }
+                    }
+                    infos.push(info);
+                }
+                let controller = async {
+                    let mut odd: Vec<String> = Vec::new();
+                    if let Some(labels) = &labels {
+                        if !ctl.ready().await {
+                            odd.push("J:NOTREADY".to_string());
+                        }
+                        for i in labels {
+                            ctl.label(*i).await;
+                            if ctl.stuck() {
+                                odd.push(format!("J:STUCK:{}", ctl.letters()));
+                                break;
+                            }
+                        }
+                    }
+                    ctl.open();
+                    if !ctl.all_done().await {
+                        odd.push(format!("J:HUNG:{}", ctl.letters()));
+                    }
+                    odd
+                };
+                let (odd, _) = tokio::join!(controller, futures_util::future::join_all(local));
+                for h in handles {
+                    let _ = tokio::time::timeout(Duration::from_secs(5), h).await;
+                }
+                sched::set_current(None);
+                for (r, info) in ctl.results().iter().zip(infos.iter()) {
+                    match (r.as_str(), info) {
+                        ("ok", Some(k)) => out.acked.push(k.clone()),
+                        ("ok", None) | ("skip", _) => {}
+                        (other, _) => seen.push(format!("J:{}", other.replace(' ', "_").replace(',', "_"))),
+                    }
+                }
+                seen.extend(odd);
+            }
             "O" => {
                 let id: u64 = rest.parse().unwrap();
                 if other.is_none() {
@@ -787,6 +911,7 @@ fn remove_dir(dir: &Path) {
 }
 
 fn main() {
+    sched::install_hooks();
     let args: Vec<String> = std::env::args().collect();
     if args.get(1).map(|s| s.as_str()) == Some("seg") {
         child_main();
